@@ -421,7 +421,7 @@ HARNESSES = [
     assumptions=_ASSUME + ['from a connected factory: two symbolic events out of {arrival, timer tick, connection lost and re-established, pause+resume, self-metric, '
                            'failed connect then re-established}, one more arrival, then every timer fires; unbounded symbolic thresholds and batch size']),
   H('C07_seq', quick=dict(timeout=280, shards=[('n%d_o%d_c%d' % (k, o, c), 'n == %d and o0 == %d and conn == %s' % (k, o, bool(c))) for k in (2, 3) for o in (0, 1, 2) for c in (0, 1)], extra_pre=['hard <= 2']),
-    thorough=dict(timeout=1500, shards=[('n%d_o%d_c%d' % (k, o, c), 'n == %d and o0 == %d and conn == %s' % (k, o, bool(c))) for k in (1, 2, 3, 4) for o in range(8) for c in (0, 1)]),
+    thorough=dict(timeout=900, shards=[('n%d_o%d_c%d' % (k, o, c), 'n == %d and o0 == %d and conn == %s' % (k, o, bool(c))) for k in (1, 2, 3, 4) for o in range(8) for c in (0, 1)]),
     covers=['ran'], replay='replay_seq', twin_pre=['n <= 2'],
     encodes=['carbon.client:CarbonClientFactory (whole)', 'carbon.client:CarbonClientProtocol (whole)'],
     assumptions=_ASSUME + ['event sequences of length <= 3 (quick, first event arrive/self-metric/connect) / <= 4 (thorough) over '
